@@ -333,7 +333,12 @@ class FilesystemLayout(_BaseLayout[_MaildirT]):
 
     """
 
-    _reserved = frozenset(['new', 'cur', 'tmp'])
+    # Sub-folders are directories inside the folder's own maildir directory,
+    # next to everything else that is kept there.
+    _reserved = frozenset(['new', 'cur', 'tmp', 'maildirfolder',
+                           'dovecot-uidlist', 'dovecot-uidlist.lock',
+                           'dovecot-keywords', 'dovecot.sieve',
+                           'subscriptions', 'subscriptions.lock'])
 
     def _get_path(self, parts: _Parts) -> str:
         return os.path.join(self._path, *parts)
